@@ -184,12 +184,26 @@ def cellsize_binding(prog, rep, public, path, f0, kern, params, expect):
     vals = vals0
     if kern is not f0:
         call = None
+        kcalls = []
         for n in f0.own_nodes():
             if isinstance(n, ast.Call) and prog.resolve_callable(f0, f0.module, n.func) is kern:
                 call = n
+                kcalls.append(n)
         if call is None:
             rep.add('S7-bind', f0, entry, 'call of %s' % kern.name, f0.node.lineno, None, 'kernel call not found')
             return
+        # every call of the kernel sees the raster in its own orientation: a transposed view exchanges rows and columns
+        # while the cell sizes stay where they are
+        for n in kcalls:
+            a0 = n.args[0] if n.args else None
+            transposed = (isinstance(a0, ast.Attribute) and a0.attr == 'T') or \
+                (isinstance(a0, ast.Call) and isinstance(a0.func, ast.Attribute) and a0.func.attr in ('transpose', 'swapaxes'))
+            if transposed:
+                sizes = [norm(x) for x in n.args[1:3]]
+                swapped = len(sizes) == 2 and sizes == [f0.params[2], f0.params[1]] if len(f0.params) > 2 else False
+                rep.add('S7-bind', f0, entry, norm(n)[:120], n.lineno, bool(swapped),
+                        'the kernel is run on the transposed raster: the x cell size then belongs to the rows and the y cell '
+                        'size to the columns, so the two must be exchanged as well (non-square cells)')
         sp2 = Spec(prog, dict(vals0), f0.module)
         vals = {}
         for p, a in list(zip(kern.params, call.args)) + [(k.arg, k.value) for k in call.keywords]:
